@@ -61,9 +61,13 @@ def gen_case(rng, tier, i):
     elif kind == 'collision':
         # derivative sequences (in quanta) whose run counts equal neighbouring values
         d = []
+        prev_r = None
         while len(d) < n:
             r = rng.randint(2, 9)
             val = rng.choice([(r - 2) * 10 ** 7, 0, rng.randint(0, 7) * 10 ** 7, rng.randint(-3, 3)])
+            if prev_r is not None and rng.random() < 0.4:
+                val = (prev_r - 2) * 10 ** 7          # a run whose VALUE equals the count field of the run before it
+            prev_r = r
             d += [val] * r
             if rng.random() < 0.5:
                 d.append(rng.choice([(r - 2) * 10 ** 7, rng.randint(0, 7) * 10 ** 7, rng.randint(-3, 3)]))
@@ -266,8 +270,10 @@ def file_stream_rich(ctx, rng, count):
         case = {'kind': 'file-rich', 'raster': r, 'blocks': kinds, 'index': k}
         with tempfile.TemporaryDirectory(prefix='pvC14r') as d:
             fn = os.path.join(d, 'a.seq')
+            dedup_on_write = rng.random() < 0.6
+            case['remove_duplicates_on_write'] = dedup_on_write
             try:
-                seq.write(fn, create_signature=False)
+                seq.write(fn, create_signature=False, remove_duplicates=dedup_on_write)
             except AssertionError:
                 ctx.count('file_rich.skipped_write_assertion')
                 continue
@@ -307,6 +313,40 @@ def file_stream_rich(ctx, rng, count):
             if bad:
                 ctx.fail('C14/file-rich', dict(case, block=int(i)), {'what': bad})
                 break
+
+
+def file_stream_long(ctx, rng, count):
+    """shapes with a million samples and more (headers with 7-digit counts), through sequence + file"""
+    import pypulseq as pp
+    for k in range(count):
+        n = rng.choice([1000000, 1000003, 1234567])
+        system = pp.Opts(max_grad=1e12, max_slew=1e15)
+        nrng = np.random.default_rng(rng.randrange(1 << 30))
+        w = np.cumsum(nrng.uniform(-1, 1, n)) * 1e-2
+        w = w / (np.max(np.abs(w)) or 1.0)
+        seq = pp.Sequence(system)
+        seq.add_block(pp.make_arbitrary_grad('x', w * 1e5, first=0.0, last=0.0, system=system))
+        case = {'kind': 'file-long', 'n': n, 'index': k}
+        ctx.evaluated(('file-long', k, n))
+        ctx.count('stream.file_long')
+        with tempfile.TemporaryDirectory(prefix='pvC14l') as d:
+            fn = os.path.join(d, 'a.seq')
+            try:
+                seq.write(fn, create_signature=False)
+                s2 = pp.Sequence()
+                s2.read(fn)
+                g1 = s2.get_block(1).gx
+            except Exception as e:  # noqa: BLE001
+                ctx.fail('C14/file-long-raises', case, {'exception': repr(e)[:200]})
+                continue
+        if len(g1.waveform) != n:
+            ctx.fail('C14/file-long-length', case, {'len': len(g1.waveform)})
+            continue
+        s1 = np.asarray(g1.waveform) / (np.max(np.abs(g1.waveform)) or 1.0)
+        err = float(np.max(np.abs(s1 - w)))
+        # 5e-8 plus the cumulative-sum rounding of a million additions and the 6-digit amplitude (removed by normalising)
+        if err > 5e-8 + 1e-9:
+            ctx.fail('C14/file-long-bound', case, {'error': err})
 
 
 def corpus():
@@ -360,6 +400,7 @@ def run(ctx):
         compare_model(ctx, [p[0] for p in pending], [p[1] for p in pending])
     file_stream(ctx, ctx.rng('file'), {'quick': 40, 'thorough': 1500}[ctx.tier])
     file_stream_rich(ctx, ctx.rng('file-rich'), {'quick': 60, 'thorough': 2000}[ctx.tier])
+    file_stream_long(ctx, ctx.rng('file-long'), {'quick': 1, 'thorough': 6}[ctx.tier])
 
 
 def replay(ctx, case):
